@@ -144,8 +144,26 @@ FAULTS = {
     "parse-unclosed-brace-eof": ("function u%d() {\n  $l = 1;\n", "parse", 0, 2),
     "throw-match-arm": ("$r = match (1) {\n  0 => 1,\n  1 => undefined_function_xyz(3),\n};", "run", 2),
     "throw-after-heredoc": ("$r = [<<<EOT\nline\nEOT\n, undefined_function_xyz(4)];", "run", 3),
+    # a fault inside an interpolated expression of a multi-line literal: the diagnostic names the literal's first line or
+    # the exact line of the expression, never another line of the literal (offsets are a list of allowed lines here)
+    "interp-heredoc-line2": ("$o%d = null;\n$s = <<<EOT\nline one\nline {$o%d->foo()} two\nthree\nEOT;", "run", [1, 3]),
+    "interp-heredoc-line3": ("$o%d = null;\n$s = <<<EOT\n\nline two\n  x {$o%d->foo()}\nEOT;", "run", [1, 4]),
+    "interp-heredoc-line1": ("$o%d = null;\n$s = <<<EOT\nline {$o%d->foo()} one\ntwo\nEOT;", "run", [1, 2]),
+    "interp-string-line2": ("$o%d = null;\n$s = \"line one\nline {$o%d->foo()} two\nthree\";", "run", [1, 2]),
+    "interp-heredoc-undefined-fn": ("$s = <<<EOT\na\nb\nc {$t[undefined_function_xyz(5)]}\nEOT;", "run", [0, 3]),
+    # a fluent chain written over several lines: the failing link is located on its own line
+    "chain-null-link": ("class Ch%d { function a() { return $this; } function b() { return null; } }\n$c%d = new Ch%d();\n$r = $c%d\n  ->a()\n  ->b()\n  ->c();", "run", 5),
+    "chain-undefined-link": ("class Cu%d { function a() { return $this; } }\n$c%d = new Cu%d();\n$r = $c%d\n  ->a()\n  ->a()\n  ->nopeLink()\n  ->a();", "run", 5),
+    "chain-null-property": ("class Cp%d { public $p = null; function a() { return $this; } }\n$c%d = new Cp%d();\n$r = $c%d\n  ->a()\n  ->p\n  ->q();", "run", 5),
+    "chain-in-args": ("class Cq%d { function a() { return $this; } function b() { return null; } }\n$c%d = new Cq%d();\n$r = strlen(\n  'x' . $c%d->a()\n    ->b()\n    ->c()\n);", "run", 5),
     "throw-in-fn": ("function g%d() {\n  $l = 1;\n  throw new Exception('in fn');\n}\ng%d();", "run", 2),
 }
+
+
+def line_ok(p, got):
+    if p.get("lines"):
+        return got in p["lines"]
+    return p["line"] <= got <= p["line"] + p.get("tol", 0)
 
 
 def fault_programs(rng, n):
@@ -163,6 +181,9 @@ def fault_programs(rng, n):
         spec = FAULTS[kind]
         fault, phase = spec[0], spec[1]
         inner = spec[2] if len(spec) > 2 else 0          # the faulty part is `inner` lines below the construct's first line
+        allowed = None
+        if isinstance(inner, list):                       # a set of allowed lines instead of one
+            allowed, inner = inner, inner[0]
         tol = spec[3] if len(spec) > 3 else 0            # lines after it that still belong to the construct
         fault = fault.replace("%d", str(i))
         mode = "plain"
@@ -181,7 +202,9 @@ def fault_programs(rng, n):
             before += rng.choice(["if ($v0)\n\n:\n$alt = 1;\nelse\n:\n$alt = 2;\nendif;", "if ($v0): $alt = 1; endif;",
                                   "while (false)\n:\n$alt = 1;\nendwhile;"]) + eol
         twice = False
-        if phase == "run" and "function " not in fault and "class " not in fault and rng.random() < 0.4:
+        # (not for faults inside string interpolation: on the unchanged tree an error raised there is not caught by an
+        # enclosing try/catch at all - reported to the coordinator as a C05-class defect - so there is no "caught first time")
+        if phase == "run" and "function " not in fault and "class " not in fault and not kind.startswith("interp-") and rng.random() < 0.4:
             # the same fault twice: first inside a try block whose catch swallows it, then uncaught further down; the
             # diagnostic must name the SECOND site (nothing about the first failure may stick to the class / function name)
             twice = True
@@ -192,7 +215,8 @@ def fault_programs(rng, n):
         line = (head + before).count("\n") + 1 + inner
         if twice:
             kind += ":twice"
-        progs.append({"src": src, "line": line, "tol": tol, "kind": kind, "phase": phase, "eol": "crlf" if eol == "\r\n" else "lf",
+        progs.append({"src": src, "line": line, "tol": tol, "kind": kind, "phase": phase,
+                      "lines": [line - inner + a for a in allowed] if allowed else None, "eol": "crlf" if eol == "\r\n" else "lf",
                       "mode": mode})
     return progs
 
@@ -430,6 +454,18 @@ def main(ck):
             lead = LEAD[k % len(LEAD)]
             cases.append({"hex": (lead + body).hex(), "mode": "plain", "origin": "lead"})
             cases.append({"hex": (lead + rng.choice([b"<?php ", b"<?php\n", b"<b>x</b><?php "]) + body).hex(), "mode": "template", "origin": "lead"})
+        # very long lines (flat array / argument list / concatenation, a long string followed by more tokens): tokens at byte
+        # columns far beyond 4096, 8192, 65536 on lines 1..4, so that every low bit of the line number is exercised
+        # (the Spec's line predicate counts newlines per token: inputs are kept near the sizes that matter; the many-token
+        # shape stays below 5 KB, the few-token shapes go to 9 KB; longer literals overflow coqc's stack)
+        shapes = [(b"$x = [" + b"1, " * 1450 + b"2];", (0, 2)),                       # 1 450 tokens, columns up to 4 360
+                  (b"$s = '" + b"ab" * 4300 + b"' . $t . 'u';", (0, 1, 2)),           # tokens at columns 8 600+
+                  (b"$s = '" + b"ab" * 2100 + b"' . f('" + b"cd" * 2200 + b"', $t);", (0, 1))]    # columns 4 200+ and 8 600+
+        for body, lines_ in shapes:
+            for nl in lines_ if quick else range(5):
+                pre = b"$p = 1;\n" * nl
+                cases.append({"hex": (pre + body + b"\n$q = 2;").hex(), "mode": "plain", "origin": "longline"})
+                cases.append({"hex": (b"<?php\n" + pre + body + b"\n$q = 2; ?>").hex(), "mode": "template", "origin": "longline"})
         # every keyword / literal constant of the regenerated token table in other spellings (upper case, capitalised,
         # alternating): the token text must be the source slice whatever the word lexes as
         K = tbl["consts"]
@@ -519,13 +555,13 @@ def main(ck):
             if p["phase"] == "parse":
                 if o.get("parse") != "error":
                     ck.violation(key + ":no-diagnostic", {"case": p, "impl_out": o, "clause": "a parse error was expected"})
-                elif not (p["line"] <= (o.get("pline") or 0) <= p["line"] + p.get("tol", 0)):
+                elif not line_ok(p, o.get("pline") or 0):
                     ck.violation(key, {"case": p, "impl_out": o,
                                        "clause": "parse diagnostic on line %s, fault on line %d" % (o.get("pline"), p["line"])})
             else:
                 if o.get("parse") != "ok" or o.get("run") != "throw":
                     ck.violation(key + ":no-throw", {"case": p, "impl_out": o, "clause": "an uncaught runtime error was expected"})
-                elif not (p["line"] <= (o.get("rline") or 0) <= p["line"] + p.get("tol", 0)):
+                elif not line_ok(p, o.get("rline") or 0):
                     ck.violation(key, {"case": p, "impl_out": o,
                                        "clause": "runtime error reported on line %s, fault on line %d" % (o.get("rline"), p["line"])})
     ck.cov["planted_fault_programs"] = nfault
@@ -551,7 +587,7 @@ def main(ck):
                 if o.get("code") in (0, -1) or "line" not in o:
                     ck.violation(key + ":no-diagnostic", {"case": p, "impl_out": o,
                                                           "clause": "a printed `in <file>:<line>:<col>` diagnostic and a non-zero exit were expected"})
-                elif o["file"] != o["expect_file"] or not (p["line"] <= o["line"] <= p["line"] + p.get("tol", 0)):
+                elif o["file"] != o["expect_file"] or not line_ok(p, o["line"]):
                     ck.violation(key, {"case": p, "impl_out": o,
                                        "clause": "printed diagnostic names %s:%s, the faulty construct is at %s:%d" % (
                                            o.get("file"), o.get("line"), o["expect_file"], p["line"])})
